@@ -989,6 +989,36 @@ func (n *reopenNode) Reopen() error {
 	return n.fail
 }
 
+// reopenOwner is a sink that OWNS the formatter in front of it as its first field: two nodes of
+// different types, registered separately, at one and the same address.
+type reopenOwner struct {
+	front reopenNode // registered as a node of its own (&owner.front == the owner's address)
+	self  reopenNode // the owner's own record
+}
+
+func (o *reopenOwner) Type() el.NodeType { return el.NodeTypeSink }
+func (o *reopenOwner) Reopen() error     { return o.self.Reopen() }
+func (o *reopenOwner) Process(ctx context.Context, e *el.Event) (*el.Event, error) {
+	return nil, nil
+}
+
+// zero-size node types: every pointer to a zero-size value may be the same address
+type zsFilter struct{}
+type zsFormatter struct{}
+
+var zsReopens [2]int // Reopen calls seen by the zero-size nodes (they have no room for a counter)
+
+func (*zsFilter) Type() el.NodeType { return el.NodeTypeFilter }
+func (*zsFilter) Reopen() error     { zsReopens[0]++; return nil }
+func (*zsFilter) Process(ctx context.Context, e *el.Event) (*el.Event, error) {
+	return e, nil
+}
+func (*zsFormatter) Type() el.NodeType { return el.NodeTypeFormatter }
+func (*zsFormatter) Reopen() error     { zsReopens[1]++; return nil }
+func (*zsFormatter) Process(ctx context.Context, e *el.Event) (*el.Event, error) {
+	return e, nil
+}
+
 func runReopenConc(rc *RunCtx) {
 	tp := rc.Tape
 	sim := rc.Sim
@@ -1001,15 +1031,35 @@ func runReopenConc(rc *RunCtx) {
 		return n
 	}
 	nPipes := 1 + tp.Choose(3, "npipes")
+	zeroSize := tp.Choose(4, "zero-size-nodes") == 0
+	if zeroSize {
+		zsReopens = [2]int{}
+		b.RegisterNode("zsf", &zsFilter{})
+		b.RegisterNode("zsm", &zsFormatter{})
+	}
 	var defs []el.Pipeline
 	var listed []*reopenNode
 	var desc []string
 	for p := 0; p < nPipes; p++ {
 		typ := []string{"ta", "tb"}[tp.Choose(2, "type")]
 		f := mk(fmt.Sprintf("f%d", p), el.NodeTypeFilter)
-		m := mk(fmt.Sprintf("m%d", p), el.NodeTypeFormatter)
-		k := mk(fmt.Sprintf("k%d", p), el.NodeTypeSink)
+		var m, k *reopenNode
+		if tp.Choose(4, "sink-owns-formatter") == 0 {
+			// distinct node values of distinct types that share an address (a struct and its first field)
+			o := &reopenOwner{front: reopenNode{label: fmt.Sprintf("m%d", p), kind: el.NodeTypeFormatter}, self: reopenNode{label: fmt.Sprintf("k%d", p), kind: el.NodeTypeSink}}
+			m, k = &o.front, &o.self
+			nodes = append(nodes, m, k)
+			b.RegisterNode(el.NodeID(m.label), m)
+			b.RegisterNode(el.NodeID(k.label), o)
+			simrt.Probe("reopen.nodes-sharing-an-address")
+		} else {
+			m = mk(fmt.Sprintf("m%d", p), el.NodeTypeFormatter)
+			k = mk(fmt.Sprintf("k%d", p), el.NodeTypeSink)
+		}
 		ids := []el.NodeID{el.NodeID(f.label), el.NodeID(m.label), el.NodeID(k.label)}
+		if p == 0 && zeroSize {
+			ids = append([]el.NodeID{"zsf", "zsm"}, ids...)
+		}
 		if err := b.RegisterPipeline(el.Pipeline{PipelineID: el.PipelineID(fmt.Sprintf("p%d", p)), EventType: el.EventType(typ), NodeIDs: ids}); err != nil {
 			rc.Failf("C20.setup", "", "%v", err)
 			return
@@ -1072,6 +1122,14 @@ func runReopenConc(rc *RunCtx) {
 	if sim.Stuck {
 		rc.Failf("C20.stuck", stuckClass(sim), "concurrent Reopen did not finish: %s", strings.Join(sim.StuckInfo, "; "))
 		return
+	}
+	if zeroSize && failing == nil {
+		for i, what := range []string{"zsf (a filter of a zero-size type)", "zsm (a formatter of a zero-size type)"} {
+			if zsReopens[i] < nCallers {
+				rc.Failf("C20.reopen-missed", "zero-size-node", "%d Reopen calls returned, node %s was reopened %d times: every call must reach it", nCallers, what, zsReopens[i])
+				return
+			}
+		}
 	}
 	for i, c := range calls {
 		if !c.done {
